@@ -235,6 +235,460 @@ theorem readAll_spec (inf : Bool) (b plen per : Nat) (hb : 0 < b) (hp : 0 < plen
         · subst h; rfl
         · exact i4 r h
 
+/-! ### the io.Reader contract: wrapper stacks over scripted sources -/
+
+theorem srcFuel_pos : ∀ (src : List Seg), 0 < srcFuel src
+  | [] => by simp [srcFuel]
+  | _ :: _ => by simp only [srcFuel]; omega
+
+theorem finalErr_ne_none : ∀ (src : List Seg), finalErr src ≠ .none
+  | [] => by simp [finalErr]
+  | s :: rest => by
+    simp only [finalErr]
+    split
+    · exact finalErr_ne_none rest
+    · assumption
+
+theorem srcRead_len (k : Nat) (src : List Seg) : (srcRead k src).1.1.length ≤ k := by
+  cases src with
+  | nil => simp [srcRead]
+  | cons s rest =>
+    by_cases h : s.data.length ≤ k
+    · simp only [srcRead, h, if_true]
+    · simp only [srcRead, h, if_false, List.length_take]; omega
+
+/-- one read of the source with a non-empty buffer: what it hands out is the next part of `delivered`, and either the
+    source goes on (strictly smaller) or this was its final error -/
+theorem srcRead_step (k : Nat) (hk : 0 < k) (src : List Seg) :
+    ((srcRead k src).1.2 = .none →
+        delivered src = (srcRead k src).1.1 ++ delivered (srcRead k src).2 ∧
+        finalErr src = finalErr (srcRead k src).2 ∧ srcFuel (srcRead k src).2 < srcFuel src) ∧
+    ((srcRead k src).1.2 ≠ .none →
+        delivered src = (srcRead k src).1.1 ∧ finalErr src = (srcRead k src).1.2) := by
+  cases src with
+  | nil => simp [srcRead, delivered, finalErr]
+  | cons s rest =>
+    by_cases h : s.data.length ≤ k
+    · by_cases he : s.err = .none
+      · simp only [srcRead, h, if_true, he, delivered, finalErr, srcFuel]
+        refine ⟨fun _ => ⟨trivial, trivial, by omega⟩, fun hne => absurd rfl hne⟩
+      · simp only [srcRead, h, if_true, he, if_false, delivered, finalErr]
+        exact ⟨fun h0 => False.elim h0, fun _ => ⟨trivial, trivial⟩⟩
+    · simp only [srcRead, h, if_false]
+      refine ⟨fun _ => ?_, fun hne => absurd rfl hne⟩
+      by_cases he : s.err = .none
+      · simp only [delivered, finalErr, srcFuel, he, if_true, List.length_drop, ← List.append_assoc,
+          List.take_append_drop]
+        exact ⟨trivial, trivial, by omega⟩
+      · simp only [delivered, finalErr, srcFuel, he, if_false, List.length_drop, List.take_append_drop]
+        exact ⟨trivial, trivial, by omega⟩
+
+/-- the buffer size that reaches the source through a wrapper stack: every limiter truncates to its burst -/
+def effK : List RW → Nat → Nat
+  | [], k => k
+  | .limit _ b :: ws, k => effK ws (readerAsk b k)
+  | .pass :: ws, k => effK ws k
+  | .stats :: ws, k => effK ws k
+
+/-- number of limiters in a stack -/
+def nLim : List RW → Nat
+  | [] => 0
+  | .limit _ _ :: ws => nLim ws + 1
+  | .pass :: ws => nLim ws
+  | .stats :: ws => nLim ws
+
+/-- every limiter of the stack has a positive burst (frp builds none with burst 0) -/
+def burstsPos : List RW → Bool
+  | [] => true
+  | .limit _ b :: ws => decide (0 < b) && burstsPos ws
+  | .pass :: ws => burstsPos ws
+  | .stats :: ws => burstsPos ws
+
+theorem readerAsk_le (b k : Nat) : readerAsk b k ≤ k ∧ readerAsk b k ≤ b := by
+  simp only [readerAsk]; split <;> omega
+
+theorem effK_le : ∀ (ws : List RW) (k : Nat), effK ws k ≤ k
+  | [], k => Nat.le_refl k
+  | .limit _ b :: ws, k => Nat.le_trans (effK_le ws _) (readerAsk_le b k).1
+  | .pass :: ws, k => effK_le ws k
+  | .stats :: ws, k => effK_le ws k
+
+theorem effK_le_burst : ∀ (ws : List RW) (k : Nat) (inf : Bool) (b : Nat), RW.limit inf b ∈ ws → effK ws k ≤ b
+  | [], _, _, _, h => by cases h
+  | .limit i' b' :: ws, k, inf, b, h => by
+    rcases List.mem_cons.mp h with h | h
+    · obtain ⟨_, h2⟩ := RW.limit.inj h
+      subst h2
+      exact Nat.le_trans (effK_le ws _) (readerAsk_le _ k).2
+    · exact effK_le_burst ws _ inf b h
+  | .pass :: ws, k, inf, b, h => by
+    rcases List.mem_cons.mp h with h | h
+    · cases h
+    · exact effK_le_burst ws k inf b h
+  | .stats :: ws, k, inf, b, h => by
+    rcases List.mem_cons.mp h with h | h
+    · cases h
+    · exact effK_le_burst ws k inf b h
+
+theorem effK_pos : ∀ (ws : List RW) (k : Nat), burstsPos ws = true → 0 < k → 0 < effK ws k
+  | [], _, _, hk => hk
+  | .limit _ b :: ws, k, hb, hk => by
+    simp only [burstsPos, Bool.and_eq_true, decide_eq_true_eq] at hb
+    exact effK_pos ws _ hb.2 (by simp only [readerAsk]; split <;> omega)
+  | .pass :: ws, k, hb, hk => effK_pos ws k hb hk
+  | .stats :: ws, k, hb, hk => effK_pos ws k hb hk
+
+/-- `limit.Reader.Read` on the `(n, err)` pair `(d, e)` of the reader below, `len(d) ≤ burst` -/
+theorem limit_step (inf : Bool) (b n : Nat) (d : C01Bytes) (e : SErr) (rest : List Seg) (hd : d.length ≤ b) :
+    (if PErr.ofS e = PErr.none then
+        (({ got := d, err := if waitOk inf b d.length = true then PErr.none else PErr.wait,
+            reqs := (if e = SErr.none then List.replicate n d.length else []) ++ [d.length] } : RRes), rest)
+      else ({ got := d, err := PErr.ofS e, reqs := if e = SErr.none then List.replicate n d.length else [] }, rest)) =
+      ({ got := d, err := PErr.ofS e, reqs := if e = SErr.none then List.replicate (n + 1) d.length else [] }, rest) := by
+  have hw : waitOk inf b d.length = true := by
+    simp only [waitOk, Bool.or_eq_true, decide_eq_true_eq]; right; exact hd
+  cases e with
+  | none => simp [PErr.ofS, hw, List.replicate_succ']
+  | eof => simp [PErr.ofS]
+  | other => simp [PErr.ofS]
+
+/-- a wrapper stack reads the source with the effective buffer and hands the `(n, err)` pair on UNCHANGED; each of its
+    limiters is asked for exactly the bytes of a read without error and for nothing when the read came with an error;
+    no `WaitN` is refused -/
+theorem readW_eq : ∀ (ws : List RW) (k : Nat) (src : List Seg), burstsPos ws = true →
+    readW ws k src =
+      ({ got := (srcRead (effK ws k) src).1.1, err := PErr.ofS (srcRead (effK ws k) src).1.2,
+         reqs := if (srcRead (effK ws k) src).1.2 = .none
+                 then List.replicate (nLim ws) (srcRead (effK ws k) src).1.1.length else [] },
+       (srcRead (effK ws k) src).2)
+  | [], k, src, _ => by
+    simp only [readW, effK, nLim, List.replicate_zero]
+    congr 2
+    exact (ite_self _).symm
+  | .pass :: ws, k, src, hb => by
+    simp only [burstsPos] at hb
+    show readW ws k src = _
+    rw [readW_eq ws k src hb]; rfl
+  | .stats :: ws, k, src, hb => by
+    simp only [burstsPos] at hb
+    show readW ws k src = _
+    rw [readW_eq ws k src hb]; rfl
+  | .limit inf b :: ws, k, src, hb => by
+    simp only [burstsPos, Bool.and_eq_true, decide_eq_true_eq] at hb
+    have hlen := srcRead_len (effK ws (readerAsk b k)) src
+    have hle : effK ws (readerAsk b k) ≤ b := Nat.le_trans (effK_le ws _) (readerAsk_le b k).2
+    simp only [readW, effK, nLim, readW_eq ws (readerAsk b k) src hb.2]
+    exact limit_step inf b (nLim ws) _ _ _ (Nat.le_trans hlen hle)
+
+/-- what every `Read` of a drain through a wrapper stack satisfies -/
+def RResOk (ws : List RW) (plen : Nat) (r : RRes) : Prop :=
+  r.err ≠ .wait ∧ r.got.length ≤ effK ws plen ∧
+    (r.err = .none → r.reqs = List.replicate (nLim ws) r.got.length) ∧ (r.err ≠ .none → r.reqs = [])
+
+theorem drainW_spec (ws : List RW) (plen : Nat) (hb : burstsPos ws = true) (hp : 0 < plen) :
+    ∀ (fuel : Nat) (src : List Seg), srcFuel src ≤ fuel →
+      ((drainW ws plen fuel src).map (·.got)).flatten = delivered src ∧
+      (∀ r ∈ drainW ws plen fuel src, RResOk ws plen r) ∧
+      (∃ pre last, drainW ws plen fuel src = pre ++ [last] ∧ (∀ r ∈ pre, r.err = .none) ∧
+        last.err = PErr.ofS (finalErr src)) := by
+  have hK := effK_pos ws plen hb hp
+  intro fuel
+  induction fuel with
+  | zero => intro src h; have := srcFuel_pos src; omega
+  | succ f ih =>
+    intro src hfuel
+    have hstep := srcRead_step (effK ws plen) hK src
+    have hlen := srcRead_len (effK ws plen) src
+    have hrd := readW_eq ws plen src hb
+    generalize srcRead (effK ws plen) src = x at hstep hlen hrd
+    obtain ⟨⟨d, e⟩, rest⟩ := x
+    simp only at hstep hlen hrd
+    by_cases he : e = .none
+    · subst he
+      obtain ⟨h1, h2, h3⟩ := hstep.1 rfl
+      obtain ⟨i1, i2, pre, last, i3, i4, i5⟩ := ih rest (by omega)
+      have hval : drainW ws plen (f + 1) src =
+          { got := d, err := .none, reqs := List.replicate (nLim ws) d.length } :: drainW ws plen f rest := by
+        simp [drainW, hrd, PErr.ofS]
+      rw [hval]
+      refine ⟨by simp only [List.map_cons, List.flatten_cons, i1, h1], ?_, ⟨_ :: pre, last, by rw [i3]; rfl, ?_, by rw [i5, h2]⟩⟩
+      · intro r hr
+        rcases List.mem_cons.mp hr with h | h
+        · subst h; exact ⟨by simp, hlen, fun _ => rfl, fun h => absurd rfl h⟩
+        · exact i2 r h
+      · intro r hr
+        rcases List.mem_cons.mp hr with h | h
+        · subst h; rfl
+        · exact i4 r h
+    · obtain ⟨h1, h2⟩ := hstep.2 he
+      have hne : PErr.ofS e ≠ .none := by cases e <;> simp_all [PErr.ofS]
+      have hnw : PErr.ofS e ≠ .wait := by cases e <;> simp [PErr.ofS]
+      have hval : drainW ws plen (f + 1) src = [{ got := d, err := PErr.ofS e, reqs := [] }] := by
+        simp [drainW, hrd, hne, he]
+      rw [hval]
+      refine ⟨by simp [h1], ?_, ⟨[], _, rfl, by simp, by simp [h2]⟩⟩
+      intro r hr
+      simp only [List.mem_singleton] at hr
+      subst hr
+      exact ⟨hnw, hlen, fun h => absurd h hne, fun _ => rfl⟩
+
+/-- however early the caller stops: what it has read is a prefix of what the source delivers -/
+theorem drainW_prefix (ws : List RW) (plen : Nat) (hb : burstsPos ws = true) (hp : 0 < plen) :
+    ∀ (fuel : Nat) (src : List Seg), ((drainW ws plen fuel src).map (·.got)).flatten <+: delivered src := by
+  have hK := effK_pos ws plen hb hp
+  intro fuel
+  induction fuel with
+  | zero => intro src; simp [drainW]
+  | succ f ih =>
+    intro src
+    have hstep := srcRead_step (effK ws plen) hK src
+    have hrd := readW_eq ws plen src hb
+    generalize srcRead (effK ws plen) src = x at hstep hrd
+    obtain ⟨⟨d, e⟩, rest⟩ := x
+    simp only at hstep hrd
+    by_cases he : e = .none
+    · subst he
+      obtain ⟨h1, _, _⟩ := hstep.1 rfl
+      have hval : drainW ws plen (f + 1) src =
+          { got := d, err := .none, reqs := List.replicate (nLim ws) d.length } :: drainW ws plen f rest := by
+        simp [drainW, hrd, PErr.ofS]
+      rw [hval, h1]
+      simp only [List.map_cons, List.flatten_cons]
+      exact (List.prefix_append_right_inj d).mpr (ih rest)
+    · obtain ⟨h1, _⟩ := hstep.2 he
+      have hne : PErr.ofS e ≠ .none := by cases e <;> simp_all [PErr.ofS]
+      have hval : drainW ws plen (f + 1) src = [{ got := d, err := PErr.ofS e, reqs := [] }] := by
+        simp [drainW, hrd, hne, he]
+      rw [hval, h1]
+      simp
+
+/-- a source whose errors come on a read of their own — `(n, nil)` … `(0, err)`: tcp, yamux, websocket -/
+def ownErr (src : List Seg) : Bool := src.all fun s => s.err == .none || s.data.isEmpty
+
+theorem srcRead_ownErr (k : Nat) (src : List Seg) (h : ownErr src = true) :
+    ((srcRead k src).1.2 ≠ .none → (srcRead k src).1.1 = []) ∧ ownErr (srcRead k src).2 = true := by
+  cases src with
+  | nil => simp [srcRead, ownErr]
+  | cons s rest =>
+    simp only [ownErr, List.all_cons, Bool.and_eq_true, Bool.or_eq_true, beq_iff_eq, List.isEmpty_iff] at h
+    obtain ⟨hs, hr⟩ := h
+    by_cases hk : s.data.length ≤ k
+    · by_cases he : s.err = .none
+      · simp only [srcRead, hk, if_true, he]
+        exact ⟨fun hne => absurd rfl hne, by simpa [ownErr] using hr⟩
+      · have hd : s.data = [] := by rcases hs with h | h; exact absurd h he; exact h
+        simp only [srcRead, hk, if_true, he, if_false]
+        exact ⟨fun _ => hd, by simp [ownErr]⟩
+    · have he : s.err = .none := by
+        rcases hs with h | h
+        · exact h
+        · rw [h] at hk; exact absurd (Nat.zero_le k) hk
+      simp only [srcRead, hk, if_false]
+      refine ⟨fun hne => absurd rfl hne, ?_⟩
+      simp only [ownErr, List.all_cons, he, beq_self_eq_true, Bool.true_or, Bool.true_and]
+      simpa [ownErr] using hr
+
+/-- over such a source the read that fails hands out no bytes -/
+theorem drainW_ownErr (ws : List RW) (plen : Nat) (hb : burstsPos ws = true) :
+    ∀ (fuel : Nat) (src : List Seg), ownErr src = true →
+      ∀ r ∈ drainW ws plen fuel src, r.err ≠ .none → r.got = [] := by
+  intro fuel
+  induction fuel with
+  | zero => intro src _ r hr; simp [drainW] at hr
+  | succ f ih =>
+    intro src ho r hr hne
+    have hown := srcRead_ownErr (effK ws plen) src ho
+    have hrd := readW_eq ws plen src hb
+    generalize srcRead (effK ws plen) src = x at hown hrd
+    obtain ⟨⟨d, e⟩, rest⟩ := x
+    simp only at hown hrd
+    by_cases he : e = .none
+    · subst he
+      have hval : drainW ws plen (f + 1) src =
+          { got := d, err := .none, reqs := List.replicate (nLim ws) d.length } :: drainW ws plen f rest := by
+        simp [drainW, hrd, PErr.ofS]
+      rw [hval] at hr
+      rcases List.mem_cons.mp hr with h | h
+      · subst h; exact absurd rfl hne
+      · exact ih rest hown.2 r h hne
+    · have hne' : PErr.ofS e ≠ .none := by cases e <;> simp_all [PErr.ofS]
+      have hval : drainW ws plen (f + 1) src = [{ got := d, err := PErr.ofS e, reqs := [] }] := by
+        simp [drainW, hrd, hne', he]
+      rw [hval] at hr
+      simp only [List.mem_singleton] at hr
+      subst hr
+      exact hown.1 he
+
+/-! ### the io.Writer contract: `Writer.Write` over scripted sinks -/
+
+/-- no answer of the script breaks the io.Writer contract (short count ⇒ error) -/
+def sinkOk (ss : List SinkResp) : Bool := ss.all fun s => !s.lax
+
+/-- everything one `Write` over a contract-abiding scripted sink does -/
+structure WSSpec (p : C01Bytes) (x : WRes × List SinkResp) : Prop where
+  noWait : x.1.err ≠ .wait
+  n_eq : x.1.n = x.1.took.sum
+  n_le : x.1.n ≤ p.length
+  acc : x.1.accepted = p.take x.1.n
+  ok_full : x.1.err = .none → x.1.n = p.length
+  rest_ok : sinkOk x.2 = true
+
+theorem sinkWrite_spec (c : C01Bytes) (ss : List SinkResp) (h : sinkOk ss = true) :
+    (sinkWrite c ss).1.1 ≤ c.length ∧ ((sinkWrite c ss).1.2 = false → (sinkWrite c ss).1.1 = c.length) ∧
+      sinkOk (sinkWrite c ss).2 = true := by
+  cases ss with
+  | nil => simp [sinkWrite, sinkOk]
+  | cons s rest =>
+    simp only [sinkOk, List.all_cons, Bool.and_eq_true, Bool.not_eq_true'] at h
+    simp only [sinkWrite, h.1, Bool.not_false, Bool.and_true, Bool.or_eq_false_iff, decide_eq_false_iff_not]
+    refine ⟨Nat.min_le_right _ _, fun hh => ?_, h.2⟩
+    have := Nat.min_le_right s.take c.length
+    omega
+
+theorem writeSAux_spec (inf : Bool) (b : Nat) (hb : 0 < b) :
+    ∀ (fuel : Nat) (ss : List SinkResp) (p : C01Bytes), p.length ≤ fuel → sinkOk ss = true →
+      WSSpec p (writeSAux inf b fuel ss p) := by
+  intro fuel
+  induction fuel with
+  | zero =>
+    intro ss p hp hs
+    have : p = [] := List.eq_nil_of_length_eq_zero (by omega)
+    subst this
+    exact ⟨by simp [writeSAux], by simp [writeSAux], by simp [writeSAux], by simp [writeSAux, WRes.accepted, takenOf],
+      by simp [writeSAux], by simpa [writeSAux] using hs⟩
+  | succ f ih =>
+    intro ss p hp hs
+    by_cases h0 : p.length = 0
+    · have : p = [] := List.eq_nil_of_length_eq_zero h0
+      subst this
+      exact ⟨by simp [writeSAux], by simp [writeSAux], by simp [writeSAux], by simp [writeSAux, WRes.accepted, takenOf],
+        by simp [writeSAux], by simpa [writeSAux] using hs⟩
+    · have hw := waitOk_chunk inf b p.length
+      have he : 0 < (if b < p.length then b else p.length) ∧ (if b < p.length then b else p.length) ≤ p.length := by
+        split <;> omega
+      generalize hE : (if b < p.length then b else p.length) = e at hw he
+      obtain ⟨he0, hel⟩ := he
+      have htl : (p.take e).length = e := by simp only [List.length_take]; omega
+      have hsk := sinkWrite_spec (p.take e) ss hs
+      rw [htl] at hsk
+      generalize hX : sinkWrite (p.take e) ss = x at hsk
+      obtain ⟨⟨nn, flag⟩, ss'⟩ := x
+      simp only at hsk
+      obtain ⟨hnn, hfull, hs'⟩ := hsk
+      cases flag with
+      | true =>
+        have hval : writeSAux inf b (f + 1) ss p =
+            ({ n := nn, err := .sink, reqs := [e], offered := [p.take e], took := [nn] }, ss') := by
+          simp only [writeSAux, h0, if_false, hE, hw, if_true, hX]
+        rw [hval]
+        refine ⟨by simp, by simp, by simp only []; omega, ?_, by simp, hs'⟩
+        simp only [WRes.accepted, takenOf, List.append_nil, List.take_take]
+        congr 1
+        omega
+      | false =>
+        have hne : nn = e := hfull rfl
+        subst hne
+        have hd : (p.drop nn).length ≤ f := by simp only [List.length_drop]; omega
+        have s := ih ss' (p.drop nn) hd hs'
+        have hdl : (p.drop nn).length = p.length - nn := List.length_drop
+        have hval : writeSAux inf b (f + 1) ss p =
+            ({ n := nn + (writeSAux inf b f ss' (p.drop nn)).1.n, err := (writeSAux inf b f ss' (p.drop nn)).1.err,
+               reqs := nn :: (writeSAux inf b f ss' (p.drop nn)).1.reqs,
+               offered := p.take nn :: (writeSAux inf b f ss' (p.drop nn)).1.offered,
+               took := nn :: (writeSAux inf b f ss' (p.drop nn)).1.took }, (writeSAux inf b f ss' (p.drop nn)).2) := by
+          simp only [writeSAux, h0, if_false, hE, hw, if_true, hX]
+          rfl
+        rw [hval]
+        generalize writeSAux inf b f ss' (p.drop nn) = o at s
+        refine ⟨s.noWait, ?_, ?_, ?_, ?_, s.rest_ok⟩
+        · simp only [List.sum_cons, s.n_eq]
+        · have := s.n_le; simp only [hdl] at this; simp only []; omega
+        · have h := s.acc
+          simp only [WRes.accepted] at h
+          simp only [WRes.accepted, takenOf, h, List.take_take, Nat.min_self, ← List.take_add]
+        · intro h; have := s.ok_full h; simp only [hdl] at this; simp only []; omega
+
+/-- every `WaitN` of `Writer.Write` asks for exactly the bytes of the sink write that follows it -/
+theorem writeSAux_reqs (inf : Bool) (b : Nat) :
+    ∀ (fuel : Nat) (ss : List SinkResp) (p : C01Bytes),
+      (writeSAux inf b fuel ss p).1.reqs = (writeSAux inf b fuel ss p).1.offered.map List.length := by
+  intro fuel
+  induction fuel with
+  | zero => intro ss p; simp [writeSAux]
+  | succ f ih =>
+    intro ss p
+    by_cases h0 : p.length = 0
+    · simp [writeSAux, h0]
+    · have hw := waitOk_chunk inf b p.length
+      have he : (if b < p.length then b else p.length) ≤ p.length := by split <;> omega
+      generalize hE : (if b < p.length then b else p.length) = e at hw he
+      have htl : (p.take e).length = e := by simp only [List.length_take]; omega
+      generalize hX : sinkWrite (p.take e) ss = x
+      obtain ⟨⟨nn, flag⟩, ss'⟩ := x
+      cases flag with
+      | true => simp only [writeSAux, h0, if_false, hE, hw, if_true, hX, List.map_cons, List.map_nil, htl]
+      | false =>
+        have := ih ss' (p.drop e)
+        simp only [writeSAux, h0, if_false, hE, hw, if_true, hX, this, Bool.false_eq_true, List.map_cons, htl]
+
+theorem writeS_spec (inf : Bool) (b : Nat) (hb : 0 < b) (ss : List SinkResp) (p : C01Bytes) (hs : sinkOk ss = true) :
+    WSSpec p (writeS inf b ss p) := writeSAux_spec inf b hb p.length ss p (Nat.le_refl _) hs
+
+/-- every limiter of the stack that `Write` goes through has a positive burst -/
+def limPos (ws : List RW) : Bool :=
+  match limOf ws with
+  | some (_, b) => decide (0 < b)
+  | none => true
+
+theorem writeW_spec (ws : List RW) (hb : limPos ws = true) (ss : List SinkResp) (p : C01Bytes) (hs : sinkOk ss = true) :
+    WSSpec p (writeW ws ss p) := by
+  simp only [limPos] at hb
+  simp only [writeW]
+  cases hl : limOf ws with
+  | some ib =>
+    obtain ⟨inf, b⟩ := ib
+    rw [hl] at hb
+    simp only [decide_eq_true_eq] at hb
+    exact writeS_spec inf b hb ss p hs
+  | none =>
+    have hsk := sinkWrite_spec p ss hs
+    generalize sinkWrite p ss = x at hsk
+    obtain ⟨⟨nn, flag⟩, ss'⟩ := x
+    simp only at hsk
+    obtain ⟨hnn, hfull, hs'⟩ := hsk
+    refine ⟨?_, by simp, hnn, by simp [WRes.accepted, takenOf], ?_, hs'⟩
+    · cases flag <;> simp
+    · cases flag with
+      | true => simp
+      | false => intro _; exact hfull rfl
+
+/-- a stream written piece by piece through a wrapper stack by a caller that stops at the first error: the sink has
+    accepted exactly the first `Σ n` bytes of the stream -/
+theorem writeManyW_spec (ws : List RW) (hb : limPos ws = true) :
+    ∀ (ps : List C01Bytes) (ss : List SinkResp), sinkOk ss = true →
+      ((writeManyW ws ss ps).map WRes.accepted).flatten = ps.flatten.take ((writeManyW ws ss ps).map (·.n)).sum := by
+  intro ps
+  induction ps with
+  | nil => intro ss _; simp [writeManyW]
+  | cons p ps ih =>
+    intro ss hs
+    have s := writeW_spec ws hb ss p hs
+    by_cases he : (writeW ws ss p).1.err = .none
+    · have hn := s.ok_full he
+      have hval : writeManyW ws ss (p :: ps) = (writeW ws ss p).1 :: writeManyW ws (writeW ws ss p).2 ps := by
+        simp only [writeManyW, he, if_true]
+      rw [hval]
+      simp only [List.map_cons, List.flatten_cons, List.sum_cons, ih _ s.rest_ok, s.acc, hn, List.take_length,
+        List.take_append, Nat.add_sub_cancel_left]
+      congr 1
+      exact (List.take_of_length_le (by omega)).symm
+    · have hval : writeManyW ws ss (p :: ps) = [(writeW ws ss p).1] := by
+        simp only [writeManyW, he, if_false]
+      rw [hval]
+      simp only [List.map_cons, List.map_nil, List.flatten_cons, List.flatten_nil, List.append_nil, List.sum_cons,
+        List.sum_nil, Nat.add_zero, s.acc]
+      exact (List.take_append_of_le_length s.n_le).symm
+
 /-! ### token bucket -/
 
 theorem lastT_ge (r B : Nat) : ∀ (evs : List (Nat × Nat)) (L t : Nat), valid r B L t evs = true → t ≤ lastT t evs := by
